@@ -44,6 +44,16 @@ class Report:
             self.violation(key or "%s|%s" % (rule, instance), "%s: %s %s" % (rule, instance, detail), {"rule": rule, "instance": instance, "detail": detail, "where": where})
         return ok
 
+    def include(self, sub, label):
+        """Adopt the obligations of a check this property's behaviour depends on (the leaf it treats as given):
+        a failure there is a failure here, keyed `dep|<label>|<original key>`."""
+        for o in sub.obligations:
+            self.obligations.append(dict(o, rule="dep %s: %s" % (label, o["rule"])))
+        for v in sub.violations:
+            k = v["key"].split("|", 1)[1] if "|" in v["key"] else v["key"]
+            self.violation("dep|%s|%s" % (label, k), "dependency %s — %s" % (label, v["text"]), v["detail"])
+        self.analysed["functions"].update(sub.analysed["functions"])
+
     def violation(self, key, text, detail=None):
         self.violations.append({"key": "%s|%s" % (self.pid, key), "text": text, "detail": detail or {}})
 
